@@ -538,15 +538,17 @@ Definition rename (s : fsys) (v : view) (oldpath newpath : str) : fsys * res :=
                  (with_heap s (remove_child (add_child h0 np (pi_part (sr_pi rn)) oc) op (pi_part (sr_pi ro))), ROk) in
                match get h oc with
                | Some (NDir _ _) =>
-                   if negb (is_not_exist (sr_err rn))
-                   then (s, RFail (if win v then EW_AccessDenied
-                                   else match sr_child rn with
-                                        | Some nc => if node_is_dir h nc then sr_err rn else ENotADirectory
-                                        | None => ENotADirectory
-                                        end))
+                   let ndir := match sr_child rn with Some nc => node_is_dir h nc | None => false end in
+                   if ndir && negb (is_not_exist (sr_err rn)) then
+                     if match sr_child rn with Some nc => Nat.eqb nc oc | None => false end
+                        && negb (str_eqb oldpath newpath)
+                     then (s, ROk)
+                     else (s, RFail (if win v then EW_AccessDenied else sr_err rn))
                    else if Nat.eqb oc op
                            || is_prefix (pi_path (sr_pi ro) ++ [sepc (v_os v)]) (pi_path (sr_pi rn))
                    then (s, RFail EInvalidArgument)
+                   else if negb (is_not_exist (sr_err rn))
+                   then (s, RFail (if win v then EW_AccessDenied else ENotADirectory))
                    else move h
                | Some _ =>            (* file or symbolic link *)
                    if same then (s, ROk)
